@@ -1,3 +1,747 @@
-import Rngs.Lib.CheckedLemmasRandCore
+/-
+  Rngs.Props.C14 — "No public operation of any generator in the five crates panics, trips an
+  arithmetic-overflow check or indexes out of bounds, for any seed bytes, any u64 seed, any
+  fill_bytes length including 0, any operation history, any source RNG, and for JitterRng
+  any sequence of timer readings whatsoever.  The only documented panic is set_rounds(0); a
+  JitterRng output call may fail to return while its timer stays stuck, but it never panics."
+
+  METHOD.  `Rngs/Model` is total (out-of-bounds reads give a default, arithmetic is on `Nat`).
+  `Rngs/Checked/*.lean` re-states every model function that contains a partial Rust
+  operation in `Except Panic`, with each check (`rdC`, `wrC`, `addC`, `subC`, `assertC`,
+  `sliceC`, `copyLenC`, `divC`, `shiftAmtC`, …, see `Rngs/Checked/Basic.lean`) written at the
+  place where the Rust source has the operation.  The theorems below have the shape
+      `Checked.f x = .ok (Model.f x)`   (+ preservation of the data-structure invariant)
+  for ALL inputs satisfying the invariant; the invariants are explicit predicates
+  (`BlockRng.Inv`, `BlockRng64.Inv`, `Hc128.CoreInv`, `Isaac.CoreInv`, `Jitter.Inv`), shown
+  to hold for every constructor and to be preserved by every operation.
+
+  STANDING ASSUMPTIONS (facts about Rust, stated as hypotheses where used):
+    * a `fill_bytes` destination is a slice, so its length `n` is a `usize`: `n < 2^64`;
+    * a seed passed to `from_seed` is an array `[u8; N]`: `seed.length = N`;
+    * a source RNG (`SourceWF`) fills exactly the buffer it is handed (it may fail, and it
+      may return any bytes);
+    * `BlockRng<R>::next_u64` calls `generate_and_set(2)`, whose `assert!(index < len)` needs
+      a results buffer of more than 2 words (`BlockOK.len_gt`; 16 for HC-128, 256 for ISAAC).
+
+  NOT COVERED: nothing from the C14 task list.  Remarks on scope:
+    * `BlockRng::generate_and_set(index)` itself is a public rand_core function with a
+      documented `assert!(index < len)`; the generators of the five crates keep their
+      `BlockRng` private and only call it with 0, 1, 2 (covered).
+    * The invariants are established by the constructors and preserved by the operations;
+      states produced by serde deserialisation of arbitrary bytes (feature `serde`,
+      rand_core's derived `Deserialize` for `BlockRng64`) are outside C14's input list and
+      are NOT claimed to satisfy `half_used → 1 ≤ index`.
+    * `PartialEq`, `Debug`, `Clone` (`&self.t[..] == &rhs.t[..]`: the full range `[..]`
+      cannot fail) have no partial operation.
+-/
+import Rngs.Lib.CheckedLemmasHistory
+import Rngs.Lib.CheckedLemmasFromRng
+import Rngs.Lib.CheckedLemmasJitter
 namespace Rngs.C14
+open Rngs.Checked
+
+/-! ## 1. rand_core `BlockRng<R>` / `BlockRng64<R>` (generic in the core) -/
+
+section block
+variable {σ : Type}
+
+/-- `BlockRng::new` establishes the invariant `index ≤ N ∧ results.len() = N` -/
+theorem blockRng_new_inv (c : BlockCore σ 32) (CI : σ → Prop) (core : σ) (h : CI core) :
+    Checked.BlockRng.Inv c CI (Rngs.BlockRng.new c core) :=
+  Checked.BlockRng.new_inv c CI core h
+
+/-- `BlockRng::next_u32`: `results[self.index]`, `self.index += 1`, `generate_and_set(0)` -/
+theorem blockRng_nextU32 {c : BlockCore σ 32} {cC : BlockCoreC σ 32} {CI : σ → Prop}
+    (ok : BlockOK c cC CI) (r : Rngs.BlockRng σ) (h : Checked.BlockRng.Inv c CI r) :
+    Checked.BlockRng.nextU32 cC r = .ok (r.nextU32 c) ∧ Checked.BlockRng.Inv c CI (r.nextU32 c).2 :=
+  Checked.BlockRng.nextU32_ok ok r h
+
+/-- `BlockRng::next_u64`, all three branches: `len - 1`, `results[index..=index+1]`,
+    `results[len - 1]`, `results[0]`, `generate_and_set(1)`, `generate_and_set(2)` -/
+theorem blockRng_nextU64 {c : BlockCore σ 32} {cC : BlockCoreC σ 32} {CI : σ → Prop}
+    (ok : BlockOK c cC CI) (r : Rngs.BlockRng σ) (h : Checked.BlockRng.Inv c CI r) :
+    Checked.BlockRng.nextU64 cC r = .ok (r.nextU64 c) ∧ Checked.BlockRng.Inv c CI (r.nextU64 c).2 :=
+  Checked.BlockRng.nextU64_ok ok r h
+
+/-- `BlockRng::fill_bytes` for every destination length (0 included) -/
+theorem blockRng_fillBytes {c : BlockCore σ 32} {cC : BlockCoreC σ 32} {CI : σ → Prop}
+    (ok : BlockOK c cC CI) (n : Nat) (hn : n < USIZE) (r : Rngs.BlockRng σ)
+    (h : Checked.BlockRng.Inv c CI r) :
+    Checked.BlockRng.fillBytes cC n r = .ok (r.fillBytes c n) ∧ Checked.BlockRng.Inv c CI (r.fillBytes c n).2 :=
+  Checked.BlockRng.fillBytes_ok ok n hn r h
+
+/-- any history of `next_u32` / `next_u64` / `fill_bytes(n)` calls on a `BlockRng` -/
+theorem blockRng_history {c : BlockCore σ 32} {cC : BlockCoreC σ 32} {CI : σ → Prop}
+    (ok : BlockOK c cC CI) (ops : List Op) (hops : ∀ op, op ∈ ops → op.wf)
+    (r : Rngs.BlockRng σ) (h : Checked.BlockRng.Inv c CI r) :
+    Checked.BlockRng.runC cC ops r = .ok (Checked.BlockRng.runM c ops r) ∧ Checked.BlockRng.Inv c CI (Checked.BlockRng.runM c ops r) :=
+  Checked.BlockRng.run_ok ok ops hops r h
+
+/-- `BlockRng64::new` establishes `index ≤ N ∧ results.len() = N ∧ (half_used → 1 ≤ index)` -/
+theorem blockRng64_new_inv (c : BlockCore σ 64) (CI : σ → Prop) (core : σ) (h : CI core) :
+    Checked.BlockRng64.Inv c CI (Rngs.BlockRng64.new c core) :=
+  Checked.BlockRng64.new_inv c CI core h
+
+/-- `BlockRng64::next_u32`: `self.index - self.half_used as usize` does not underflow,
+    `32 * (half_used as usize)` is a valid shift amount, `results[index]` is in bounds -/
+theorem blockRng64_nextU32 {c : BlockCore σ 64} {cC : BlockCoreC σ 64} {CI : σ → Prop}
+    (ok : BlockOK c cC CI) (r : Rngs.BlockRng64 σ) (h : Checked.BlockRng64.Inv c CI r) :
+    Checked.BlockRng64.nextU32 cC r = .ok (r.nextU32 c) ∧ Checked.BlockRng64.Inv c CI (r.nextU32 c).2 :=
+  Checked.BlockRng64.nextU32_ok ok r h
+
+theorem blockRng64_nextU64 {c : BlockCore σ 64} {cC : BlockCoreC σ 64} {CI : σ → Prop}
+    (ok : BlockOK c cC CI) (r : Rngs.BlockRng64 σ) (h : Checked.BlockRng64.Inv c CI r) :
+    Checked.BlockRng64.nextU64 cC r = .ok (r.nextU64 c) ∧ Checked.BlockRng64.Inv c CI (r.nextU64 c).2 :=
+  Checked.BlockRng64.nextU64_ok ok r h
+
+theorem blockRng64_fillBytes {c : BlockCore σ 64} {cC : BlockCoreC σ 64} {CI : σ → Prop}
+    (ok : BlockOK c cC CI) (n : Nat) (hn : n < USIZE) (r : Rngs.BlockRng64 σ)
+    (h : Checked.BlockRng64.Inv c CI r) :
+    Checked.BlockRng64.fillBytes cC n r = .ok (r.fillBytes c n) ∧ Checked.BlockRng64.Inv c CI (r.fillBytes c n).2 :=
+  Checked.BlockRng64.fillBytes_ok ok n hn r h
+
+theorem blockRng64_history {c : BlockCore σ 64} {cC : BlockCoreC σ 64} {CI : σ → Prop}
+    (ok : BlockOK c cC CI) (ops : List Op) (hops : ∀ op, op ∈ ops → op.wf)
+    (r : Rngs.BlockRng64 σ) (h : Checked.BlockRng64.Inv c CI r) :
+    Checked.BlockRng64.runC cC ops r = .ok (Checked.BlockRng64.runM c ops r) ∧
+    Checked.BlockRng64.Inv c CI (Checked.BlockRng64.runM c ops r) :=
+  Checked.BlockRng64.run_ok ok ops hops r h
+
+end block
+
+/-! ## 2. `impls::fill_via_chunks`, `impls::fill_bytes_via_next` -/
+
+/-- `fill_via_chunks::<u32>` for any source slice and destination length: `num_chunks * size`,
+    `byte_len + n`, `to_le_bytes()[..n]`, the `copy_from_slice` lengths -/
+theorem fillViaChunks_u32 (src : List U32) (destLen : Nat) (hd : destLen < USIZE)
+    (hs : src.length < USIZE) :
+    Checked.fillViaChunks 4 U32.toLE src destLen = .ok (Rngs.fillViaChunks 4 U32.toLE src destLen) :=
+  fillViaChunks_ok 4 U32.toLE src destLen (by decide) length_U32_toLE hd hs
+
+theorem fillViaChunks_u64 (src : List U64) (destLen : Nat) (hd : destLen < USIZE)
+    (hs : src.length < USIZE) :
+    Checked.fillViaChunks 8 U64.toLE src destLen = .ok (Rngs.fillViaChunks 8 U64.toLE src destLen) :=
+  fillViaChunks_ok 8 U64.toLE src destLen (by decide) length_U64_toLE hd hs
+
+/-- `fill_bytes_via_next` for any generator and any length: `split_at_mut(8)` while
+    `len ≥ 8`, `chunk[..n]` with `n ≤ 7` resp. `n ≤ 4` -/
+theorem fillBytesViaNext_no_panic {σ : Type} (g : Direct σ) (n : Nat) (s : σ) :
+    Checked.fillBytesViaNext g n s = .ok (Rngs.fillBytesViaNext g n s) :=
+  fillBytesViaNext_ok g n s
+
+/-! ## 3. `le::read_u32_into`, `le::read_u64_into`: `assert!(src.len() >= 4 * dst.len())` -/
+
+theorem readU32s_no_panic (bs : List U8) (n : Nat) (h : 4 * n ≤ bs.length) (hl : bs.length < USIZE) :
+    Checked.readU32s bs n = .ok (Rngs.readU32s bs n) :=
+  readU32s_ok bs n h hl
+
+theorem readU64s_no_panic (bs : List U8) (n : Nat) (h : 8 * n ≤ bs.length) (hl : bs.length < USIZE) :
+    Checked.readU64s bs n = .ok (Rngs.readU64s bs n) :=
+  readU64s_ok bs n h hl
+
+/-- every call site: seed arrays of 8/16 bytes read as 2/4 `u32`; 8/16/32/64 bytes read as
+    1/2/4/8 `u64`; HC-128 and ISAAC: 32 bytes as 8 `u32`; ISAAC-64: 32 bytes as 4 `u64` -/
+theorem read_into_call_sites (bs : List U8) :
+    (bs.length = 8 → Checked.readU32s bs 2 = .ok (Rngs.readU32s bs 2)) ∧
+    (bs.length = 16 → Checked.readU32s bs 4 = .ok (Rngs.readU32s bs 4)) ∧
+    (bs.length = 32 → Checked.readU32s bs 8 = .ok (Rngs.readU32s bs 8)) ∧
+    (bs.length = 8 → Checked.readU64s bs 1 = .ok (Rngs.readU64s bs 1)) ∧
+    (bs.length = 16 → Checked.readU64s bs 2 = .ok (Rngs.readU64s bs 2)) ∧
+    (bs.length = 32 → Checked.readU64s bs 4 = .ok (Rngs.readU64s bs 4)) ∧
+    (bs.length = 64 → Checked.readU64s bs 8 = .ok (Rngs.readU64s bs 8)) := by
+  have hU := USIZE_eq
+  refine ⟨?_, ?_, ?_, ?_, ?_, ?_, ?_⟩ <;> intro h
+  · exact readU32s_ok bs 2 (by omega) (by omega)
+  · exact readU32s_ok bs 4 (by omega) (by omega)
+  · exact readU32s_ok bs 8 (by omega) (by omega)
+  · exact readU64s_ok bs 1 (by omega) (by omega)
+  · exact readU64s_ok bs 2 (by omega) (by omega)
+  · exact readU64s_ok bs 4 (by omega) (by omega)
+  · exact readU64s_ok bs 8 (by omega) (by omega)
+
+/-! ## 4. HC-128 -/
+
+/-- `Hc128Core::generate` for EVERY counter that is a multiple of 16 (no upper bound: also
+    right after the 64-bit counter has wrapped, since the model reduces it mod 2^64 and 2^64
+    is a multiple of 16): the four `assert!`s, all 80 table indices, `q[a]`, `q[256 + c]`,
+    `results[k]`; the invariant (1024-word table, aligned counter) is preserved -/
+theorem hc128_generate (c : Rngs.Hc128.Core) (results : Array U32) (hc : Checked.Hc128.CoreInv c)
+    (hres : results.size = 16) :
+    Checked.Hc128.generate c results = .ok (Rngs.Hc128.generate c results) ∧
+    Checked.Hc128.CoreInv (Rngs.Hc128.generate c results).2 ∧
+    (Rngs.Hc128.generate c results).1.size = 16 :=
+  Checked.Hc128.generate_ok c results hc hres
+
+/-- the counter stays a `usize` and aligned across the wrap-around `wrapping_add(16)` -/
+theorem hc128_generate_counter (c : Rngs.Hc128.Core) (results : Array U32)
+    (hc : c.counter % 16 = 0) :
+    (Rngs.Hc128.generate c results).2.counter < 2 ^ 64 ∧
+    (Rngs.Hc128.generate c results).2.counter % 16 = 0 := by
+  rw [Checked.Hc128.generate_eq]
+  generalize List.foldl _ _ _ = p
+  obtain ⟨t, r, k⟩ := p
+  simp only [Checked.Hc128.HUSIZE_eq]
+  omega
+
+/-- `sixteen_steps`, with its CHECKED `self.counter1024 += 16`, for every aligned counter
+    below `usize::MAX - 15` (in `init`: 0, 16, …, 1008): `self.t[cc + k]`,
+    `self.t[cc + 512 + k]` and the 80 step indices -/
+theorem hc128_sixteenSteps (c : Rngs.Hc128.Core) (hc : Checked.Hc128.CoreInv c)
+    (hlt : c.counter + 16 < USIZE) :
+    Checked.Hc128.sixteenSteps c = .ok (Rngs.Hc128.sixteenSteps c) ∧
+    (Rngs.Hc128.sixteenSteps c).t.size = 1024 ∧
+    (Rngs.Hc128.sixteenSteps c).counter = c.counter + 16 :=
+  Checked.Hc128.sixteenSteps_ok c hc hlt
+
+/-- `Hc128Core::init` for any 8 seed words: `seed.split_at(4)`, the `copy_from_slice`s,
+    `t[i-2]`, `t[i-7]`, `t[i-15]`, `t[i-16]`, `256 + i as u32`, 64 × `sixteen_steps` -/
+theorem hc128_init (seed : List U32) (hs : seed.length = 8) :
+    Checked.Hc128.init seed = .ok (Rngs.Hc128.init seed) ∧ Checked.Hc128.CoreInv (Rngs.Hc128.init seed) :=
+  Checked.Hc128.init_ok seed hs
+
+/-- `Hc128Rng::from_seed` for any 32 seed bytes -/
+theorem hc128_fromSeed (seed : List U8) (h : seed.length = 32) :
+    Checked.Hc128.fromSeed seed = .ok (Rngs.Hc128.fromSeed seed) ∧ Checked.Hc128.RngInv (Rngs.Hc128.fromSeed seed) :=
+  Checked.Hc128.fromSeed_ok seed h
+
+/-- `Hc128Rng::seed_from_u64` for any `u64` -/
+theorem hc128_seedFromU64 (x : U64) :
+    Checked.Hc128.seedFromU64 x = .ok (Rngs.Hc128.seedFromU64 x) ∧ Checked.Hc128.RngInv (Rngs.Hc128.seedFromU64 x) :=
+  Checked.Hc128.seedFromU64_ok x
+
+/-- `Hc128Rng::from_rng` / `try_from_rng` for any source RNG -/
+theorem hc128_fromRng {ρ : Type} (fill : TryFill ρ) (hf : SourceWF fill) (src : ρ) :
+    Checked.Hc128.fromRng fill src = .ok (Rngs.Hc128.fromRng fill src) ∧
+    (∀ r src', Rngs.Hc128.fromRng fill src = (.ok r, src') → Checked.Hc128.RngInv r) :=
+  ⟨Checked.Hc128.fromRng_ok fill hf src, fun r src' h => Checked.Hc128.fromRng_inv fill hf src r src' h⟩
+
+theorem hc128_nextU32 (r : Rngs.Hc128.Rng) (h : Checked.Hc128.RngInv r) :
+    Checked.Hc128.nextU32 r = .ok (Rngs.Hc128.nextU32 r) ∧ Checked.Hc128.RngInv (Rngs.Hc128.nextU32 r).2 :=
+  Checked.Hc128.nextU32_ok r h
+
+theorem hc128_nextU64 (r : Rngs.Hc128.Rng) (h : Checked.Hc128.RngInv r) :
+    Checked.Hc128.nextU64 r = .ok (Rngs.Hc128.nextU64 r) ∧ Checked.Hc128.RngInv (Rngs.Hc128.nextU64 r).2 :=
+  Checked.Hc128.nextU64_ok r h
+
+theorem hc128_fill (n : Nat) (hn : n < USIZE) (r : Rngs.Hc128.Rng) (h : Checked.Hc128.RngInv r) :
+    Checked.Hc128.fill n r = .ok (Rngs.Hc128.fill n r) ∧ Checked.Hc128.RngInv (Rngs.Hc128.fill n r).2 :=
+  Checked.Hc128.fill_ok n hn r h
+
+/-- any operation history on an `Hc128Rng` built from any seed -/
+theorem hc128_history (seed : List U8) (h : seed.length = 32) (ops : List Op)
+    (hops : ∀ op, op ∈ ops → op.wf) :
+    Checked.BlockRng.runC Checked.Hc128.blockCoreC ops (Rngs.Hc128.fromSeed seed) =
+      .ok (Checked.BlockRng.runM Rngs.Hc128.blockCore ops (Rngs.Hc128.fromSeed seed)) :=
+  (Checked.BlockRng.run_ok Checked.Hc128.blockOK ops hops _ (Checked.Hc128.fromSeed_ok seed h).2).1
+
+/-- the invariant is satisfiable: it holds for the generator seeded with zeros -/
+example : Checked.Hc128.RngInv (Rngs.Hc128.fromSeed (List.replicate 32 0)) :=
+  (Checked.Hc128.fromSeed_ok _ (by simp)).2
+
+/-! ## 5. ISAAC, ISAAC-64 -/
+
+/-- `IsaacCore::generate` / `Isaac64Core::generate` (parametric in the width-dependent parts):
+    `mem[base + m]`, `mem[base + m2]`, `results[RAND_SIZE - 1 - base - m]`, `ind`'s
+    `% RAND_SIZE` index, under `mem.len() = 256 ∧ results.len() = 256` -/
+theorem isaac_generate {w : Nat} (p : Rngs.Isaac.Params w) (core : Rngs.Isaac.Core w)
+    (res : Array (BitVec w)) (hc : Checked.Isaac.CoreInv core) (hres : res.size = 256) :
+    Checked.Isaac.generate p core res = .ok (Rngs.Isaac.generate p core res) ∧
+    Checked.Isaac.CoreInv (Rngs.Isaac.generate p core res).2 ∧
+    (Rngs.Isaac.generate p core res).1.size = 256 :=
+  Checked.Isaac.generate_ok p core res hc hres
+
+/-- `init(mem, rounds)`: `mem[i + k]` for i in 0, 8, …, 248 -/
+theorem isaac_init {w : Nat} (p : Rngs.Isaac.Params w) (mem : Array (BitVec w)) (rounds : Nat)
+    (h : mem.size = 256) :
+    Checked.Isaac.init p mem rounds = .ok (Rngs.Isaac.init p mem rounds) ∧
+    Checked.Isaac.CoreInv (Rngs.Isaac.init p mem rounds) :=
+  Checked.Isaac.init_ok p mem rounds h
+
+/-- `IsaacRng` constructors: `from_seed` (any 32 bytes), `seed_from_u64` (any u64),
+    `from_rng` / `try_from_rng` (any source; no assumption on it is even needed) -/
+theorem isaac32_constructors :
+    (∀ (seed : List U8), seed.length = 32 →
+      Checked.Isaac.fromSeed32 seed = .ok (Rngs.Isaac.fromSeed32 seed) ∧
+      Checked.BlockRng.Inv Rngs.Isaac.blockCore32 Checked.Isaac.CoreInv (Rngs.Isaac.fromSeed32 seed)) ∧
+    (∀ (x : U64), Checked.Isaac.seedFromU64_32 x = .ok (Rngs.Isaac.seedFromU64_32 x) ∧
+      Checked.BlockRng.Inv Rngs.Isaac.blockCore32 Checked.Isaac.CoreInv (Rngs.Isaac.seedFromU64_32 x)) ∧
+    (∀ {ρ : Type} (fill : TryFill ρ) (src : ρ),
+      Checked.Isaac.fromRng32 fill src = .ok (Rngs.Isaac.fromRng32 fill src) ∧
+      Checked.Isaac.fromRng32 fill src = .ok (Rngs.Isaac.tryFromRng32 fill src) ∧
+      (∀ r src', Rngs.Isaac.fromRng32 fill src = (.ok r, src') →
+        Checked.BlockRng.Inv Rngs.Isaac.blockCore32 Checked.Isaac.CoreInv r)) :=
+  ⟨fun seed h => ⟨Checked.Isaac.fromSeed32_ok seed h, Checked.Isaac.fromSeed32_inv seed h⟩,
+   fun x => ⟨Checked.Isaac.seedFromU64_32_ok x, Checked.Isaac.seedFromU64_32_inv x⟩,
+   fun fill src => ⟨(Checked.Isaac.fromRng32_ok fill src).1, (Checked.Isaac.fromRng32_ok fill src).2,
+     fun r src' h => Checked.Isaac.fromRng32_inv fill src r src' h⟩⟩
+
+theorem isaac64_constructors :
+    (∀ (seed : List U8), seed.length = 32 →
+      Checked.Isaac.fromSeed64 seed = .ok (Rngs.Isaac.fromSeed64 seed) ∧
+      Checked.BlockRng64.Inv Rngs.Isaac.blockCore64 Checked.Isaac.CoreInv (Rngs.Isaac.fromSeed64 seed)) ∧
+    (∀ (x : U64), Checked.Isaac.seedFromU64_64 x = .ok (Rngs.Isaac.seedFromU64_64 x) ∧
+      Checked.BlockRng64.Inv Rngs.Isaac.blockCore64 Checked.Isaac.CoreInv (Rngs.Isaac.seedFromU64_64 x)) ∧
+    (∀ {ρ : Type} (fill : TryFill ρ) (src : ρ),
+      Checked.Isaac.fromRng64 fill src = .ok (Rngs.Isaac.fromRng64 fill src) ∧
+      Checked.Isaac.fromRng64 fill src = .ok (Rngs.Isaac.tryFromRng64 fill src) ∧
+      (∀ r src', Rngs.Isaac.fromRng64 fill src = (.ok r, src') →
+        Checked.BlockRng64.Inv Rngs.Isaac.blockCore64 Checked.Isaac.CoreInv r)) :=
+  ⟨fun seed h => ⟨Checked.Isaac.fromSeed64_ok seed h, Checked.Isaac.fromSeed64_inv seed h⟩,
+   fun x => ⟨Checked.Isaac.seedFromU64_64_ok x, Checked.Isaac.seedFromU64_64_inv x⟩,
+   fun fill src => ⟨(Checked.Isaac.fromRng64_ok fill src).1, (Checked.Isaac.fromRng64_ok fill src).2,
+     fun r src' h => Checked.Isaac.fromRng64_inv fill src r src' h⟩⟩
+
+/-- `IsaacRng` = `BlockRng<IsaacCore>`: every output operation, any history -/
+theorem isaac32_ops (r : Rngs.Isaac.Rng32) (h : Checked.BlockRng.Inv Rngs.Isaac.blockCore32 Checked.Isaac.CoreInv r) :
+    (Checked.BlockRng.nextU32 Checked.Isaac.blockCoreC32 r = .ok (r.nextU32 Rngs.Isaac.blockCore32) ∧
+      Checked.BlockRng.Inv Rngs.Isaac.blockCore32 Checked.Isaac.CoreInv (r.nextU32 Rngs.Isaac.blockCore32).2) ∧
+    (Checked.BlockRng.nextU64 Checked.Isaac.blockCoreC32 r = .ok (r.nextU64 Rngs.Isaac.blockCore32) ∧
+      Checked.BlockRng.Inv Rngs.Isaac.blockCore32 Checked.Isaac.CoreInv (r.nextU64 Rngs.Isaac.blockCore32).2) ∧
+    (∀ n, n < USIZE →
+      Checked.BlockRng.fillBytes Checked.Isaac.blockCoreC32 n r = .ok (r.fillBytes Rngs.Isaac.blockCore32 n) ∧
+      Checked.BlockRng.Inv Rngs.Isaac.blockCore32 Checked.Isaac.CoreInv (r.fillBytes Rngs.Isaac.blockCore32 n).2) ∧
+    (∀ ops : List Op, (∀ op, op ∈ ops → op.wf) →
+      Checked.BlockRng.runC Checked.Isaac.blockCoreC32 ops r = .ok (Checked.BlockRng.runM Rngs.Isaac.blockCore32 ops r)) :=
+  ⟨Checked.BlockRng.nextU32_ok Checked.Isaac.blockOK32 r h, Checked.BlockRng.nextU64_ok Checked.Isaac.blockOK32 r h,
+   fun n hn => Checked.BlockRng.fillBytes_ok Checked.Isaac.blockOK32 n hn r h,
+   fun ops hops => (Checked.BlockRng.run_ok Checked.Isaac.blockOK32 ops hops r h).1⟩
+
+/-- `Isaac64Rng` = `BlockRng64<Isaac64Core>`: every output operation, any history -/
+theorem isaac64_ops (r : Rngs.Isaac.Rng64) (h : Checked.BlockRng64.Inv Rngs.Isaac.blockCore64 Checked.Isaac.CoreInv r) :
+    (Checked.BlockRng64.nextU32 Checked.Isaac.blockCoreC64 r = .ok (r.nextU32 Rngs.Isaac.blockCore64) ∧
+      Checked.BlockRng64.Inv Rngs.Isaac.blockCore64 Checked.Isaac.CoreInv (r.nextU32 Rngs.Isaac.blockCore64).2) ∧
+    (Checked.BlockRng64.nextU64 Checked.Isaac.blockCoreC64 r = .ok (r.nextU64 Rngs.Isaac.blockCore64) ∧
+      Checked.BlockRng64.Inv Rngs.Isaac.blockCore64 Checked.Isaac.CoreInv (r.nextU64 Rngs.Isaac.blockCore64).2) ∧
+    (∀ n, n < USIZE →
+      Checked.BlockRng64.fillBytes Checked.Isaac.blockCoreC64 n r = .ok (r.fillBytes Rngs.Isaac.blockCore64 n) ∧
+      Checked.BlockRng64.Inv Rngs.Isaac.blockCore64 Checked.Isaac.CoreInv (r.fillBytes Rngs.Isaac.blockCore64 n).2) ∧
+    (∀ ops : List Op, (∀ op, op ∈ ops → op.wf) →
+      Checked.BlockRng64.runC Checked.Isaac.blockCoreC64 ops r = .ok (Checked.BlockRng64.runM Rngs.Isaac.blockCore64 ops r)) :=
+  ⟨Checked.BlockRng64.nextU32_ok Checked.Isaac.blockOK64 r h, Checked.BlockRng64.nextU64_ok Checked.Isaac.blockOK64 r h,
+   fun n hn => Checked.BlockRng64.fillBytes_ok Checked.Isaac.blockOK64 n hn r h,
+   fun ops hops => (Checked.BlockRng64.run_ok Checked.Isaac.blockOK64 ops hops r h).1⟩
+
+example : Checked.BlockRng.Inv Rngs.Isaac.blockCore32 Checked.Isaac.CoreInv (Rngs.Isaac.seedFromU64_32 0) :=
+  Checked.Isaac.seedFromU64_32_inv 0
+example : Checked.BlockRng64.Inv Rngs.Isaac.blockCore64 Checked.Isaac.CoreInv
+    (Rngs.Isaac.fromSeed64 (List.replicate 32 0)) :=
+  Checked.Isaac.fromSeed64_inv _ (by simp)
+
+/-! ## 6. xoshiro family, SplitMix64, XorShift
+
+    The output functions have no partial operation at all (see the remark at the top of
+    `Rngs/Checked/Xoshiro.lean`): only `wrapping_*`, rotates, xor/or/and, shifts by literal
+    constants, literal indices into fixed-size arrays.  What remains is `impl_jump!`'s
+    `1 << b` (b < width), the `read_uN_into` assert in `from_seed`, `from_splitmix!` and
+    `fill_bytes_via_next`. -/
+
+/-- `impl_jump!` for any engine, any polynomial: the shift amount `b` of `1 << b` stays
+    below the width -/
+theorem jump_no_panic {σ : Type} {w : Nat} (step : σ → σ) (xor : σ → σ → σ) (zero : σ)
+    (words : List (BitVec w)) (s : σ) :
+    Checked.jumpLoop step xor zero words s = .ok (Rngs.jumpLoop step xor zero words s) :=
+  jumpLoop_ok step xor zero words s
+
+/-- SplitMix64: `from_seed`, `seed_from_u64`, `fill_bytes` -/
+theorem splitmix64_no_panic :
+    (∀ (seed : List U8), seed.length = 8 →
+      Checked.SplitMix64.fromSeed seed = .ok (Rngs.SplitMix64.fromSeed seed)) ∧
+    (∀ (x : U64), Checked.SplitMix64.seedFromU64 x = .ok (Rngs.SplitMix64.seedFromU64 x)) ∧
+    (∀ (n : Nat) (x : U64), Checked.SplitMix64.fill n x = .ok (Rngs.SplitMix64.fill n x)) :=
+  ⟨Checked.SplitMix64.fromSeed_ok, Checked.SplitMix64.seedFromU64_ok, Checked.SplitMix64.fill_ok⟩
+
+/-- XorShiftRng: `from_seed` (any 16 bytes), `seed_from_u64` (PCG32 default), `fill_bytes`;
+    `next_u32`, `next_u64`, `from_rng`, `try_from_rng` have no partial operation -/
+theorem xorshift_no_panic :
+    (∀ (seed : List U8), seed.length = 16 →
+      Checked.XorShift.fromSeed seed = .ok (Rngs.XorShift.fromSeed seed)) ∧
+    (∀ (x : U64), Checked.XorShift.seedFromU64 x = .ok (Rngs.XorShift.seedFromU64 x)) ∧
+    (∀ (n : Nat) (s : Rngs.XorShift.State), Checked.XorShift.fill n s = .ok (Rngs.XorShift.fill n s)) :=
+  ⟨Checked.XorShift.fromSeed_ok, Checked.XorShift.seedFromU64_ok, Checked.XorShift.fill_ok⟩
+
+/-- Xoroshiro64Star: `from_seed` (any 8 seed bytes, incl. all-zero), `seed_from_u64` (any u64),
+    `from_rng` (any source), `fill_bytes` (any length) never panic -/
+theorem xoroshiro64Star_no_panic :
+    (∀ (fuel : Nat) (seed : List U8), seed.length = 8 →
+      Checked.XoGen.fromSeedFuel Xoroshiro64Star.gen 4 2 fuel seed = .ok (Xoroshiro64Star.gen.fromSeedFuel fuel seed)) ∧
+    (∀ (fuel : Nat) (x : U64),
+      Checked.XoGen.seedFromU64Fuel Xoroshiro64Star.gen 4 2 fuel x = .ok (Xoroshiro64Star.gen.seedFromU64Fuel fuel x)) ∧
+    (∀ {ρ : Type} (fill : TryFill ρ), SourceWF fill → ∀ (src : ρ),
+      Checked.XoGen.fromRng? Xoroshiro64Star.gen 4 2 fill src = .ok (Xoroshiro64Star.gen.fromRng? fill src)) ∧
+    (∀ (n : Nat) (s : S2 32), Checked.XoGen.fill Xoroshiro64Star.gen n s = .ok (Xoroshiro64Star.gen.fill n s)) :=
+  ⟨fun fuel seed h => Checked.XoGen.fromSeedFuel_ok _ 4 2 (by decide) rfl (by decide) fuel seed h,
+   fun fuel x => Checked.XoGen.seedFromU64Fuel_ok _ 4 2 (by decide) rfl (by decide) fuel x,
+   fun fill hf src => Checked.XoGen.fromRng?_ok _ 4 2 (by decide) rfl (by decide) fill hf src,
+   fun n s => Checked.XoGen.fill_ok _ n s⟩
+
+/-- Xoroshiro64StarStar: `from_seed` (any 8 seed bytes, incl. all-zero), `seed_from_u64` (any u64),
+    `from_rng` (any source), `fill_bytes` (any length) never panic -/
+theorem xoroshiro64StarStar_no_panic :
+    (∀ (fuel : Nat) (seed : List U8), seed.length = 8 →
+      Checked.XoGen.fromSeedFuel Xoroshiro64StarStar.gen 4 2 fuel seed = .ok (Xoroshiro64StarStar.gen.fromSeedFuel fuel seed)) ∧
+    (∀ (fuel : Nat) (x : U64),
+      Checked.XoGen.seedFromU64Fuel Xoroshiro64StarStar.gen 4 2 fuel x = .ok (Xoroshiro64StarStar.gen.seedFromU64Fuel fuel x)) ∧
+    (∀ {ρ : Type} (fill : TryFill ρ), SourceWF fill → ∀ (src : ρ),
+      Checked.XoGen.fromRng? Xoroshiro64StarStar.gen 4 2 fill src = .ok (Xoroshiro64StarStar.gen.fromRng? fill src)) ∧
+    (∀ (n : Nat) (s : S2 32), Checked.XoGen.fill Xoroshiro64StarStar.gen n s = .ok (Xoroshiro64StarStar.gen.fill n s)) :=
+  ⟨fun fuel seed h => Checked.XoGen.fromSeedFuel_ok _ 4 2 (by decide) rfl (by decide) fuel seed h,
+   fun fuel x => Checked.XoGen.seedFromU64Fuel_ok _ 4 2 (by decide) rfl (by decide) fuel x,
+   fun fill hf src => Checked.XoGen.fromRng?_ok _ 4 2 (by decide) rfl (by decide) fill hf src,
+   fun n s => Checked.XoGen.fill_ok _ n s⟩
+
+/-- Xoroshiro128Plus: `from_seed` (any 16 seed bytes, incl. all-zero), `seed_from_u64` (any u64),
+    `from_rng` (any source), `fill_bytes` (any length), `jump`, `long_jump` never panic -/
+theorem xoroshiro128Plus_no_panic :
+    (∀ (fuel : Nat) (seed : List U8), seed.length = 16 →
+      Checked.XoGen.fromSeedFuel Xoroshiro128Plus.gen 8 2 fuel seed = .ok (Xoroshiro128Plus.gen.fromSeedFuel fuel seed)) ∧
+    (∀ (fuel : Nat) (x : U64),
+      Checked.XoGen.seedFromU64Fuel Xoroshiro128Plus.gen 8 2 fuel x = .ok (Xoroshiro128Plus.gen.seedFromU64Fuel fuel x)) ∧
+    (∀ {ρ : Type} (fill : TryFill ρ), SourceWF fill → ∀ (src : ρ),
+      Checked.XoGen.fromRng? Xoroshiro128Plus.gen 8 2 fill src = .ok (Xoroshiro128Plus.gen.fromRng? fill src)) ∧
+    (∀ (n : Nat) (s : S2 64), Checked.XoGen.fill Xoroshiro128Plus.gen n s = .ok (Xoroshiro128Plus.gen.fill n s)) ∧
+    (∀ (s : S2 64), Checked.jumpLoop Xoroshiro128Plus.step S2.xor S2.zero XOROSHIRO128_JUMP s = .ok (Xoroshiro128Plus.jump s)) ∧
+    (∀ (s : S2 64), Checked.jumpLoop Xoroshiro128Plus.step S2.xor S2.zero XOROSHIRO128_LONG_JUMP s = .ok (Xoroshiro128Plus.longJump s)) :=
+  ⟨fun fuel seed h => Checked.XoGen.fromSeedFuel_ok _ 8 2 (by decide) rfl (by decide) fuel seed h,
+   fun fuel x => Checked.XoGen.seedFromU64Fuel_ok _ 8 2 (by decide) rfl (by decide) fuel x,
+   fun fill hf src => Checked.XoGen.fromRng?_ok _ 8 2 (by decide) rfl (by decide) fill hf src,
+   fun n s => Checked.XoGen.fill_ok _ n s,
+   fun s => jumpLoop_ok _ _ _ _ s, fun s => jumpLoop_ok _ _ _ _ s⟩
+
+/-- Xoroshiro128PlusPlus: `from_seed` (any 16 seed bytes, incl. all-zero), `seed_from_u64` (any u64),
+    `from_rng` (any source), `fill_bytes` (any length), `jump`, `long_jump` never panic -/
+theorem xoroshiro128PlusPlus_no_panic :
+    (∀ (fuel : Nat) (seed : List U8), seed.length = 16 →
+      Checked.XoGen.fromSeedFuel Xoroshiro128PlusPlus.gen 8 2 fuel seed = .ok (Xoroshiro128PlusPlus.gen.fromSeedFuel fuel seed)) ∧
+    (∀ (fuel : Nat) (x : U64),
+      Checked.XoGen.seedFromU64Fuel Xoroshiro128PlusPlus.gen 8 2 fuel x = .ok (Xoroshiro128PlusPlus.gen.seedFromU64Fuel fuel x)) ∧
+    (∀ {ρ : Type} (fill : TryFill ρ), SourceWF fill → ∀ (src : ρ),
+      Checked.XoGen.fromRng? Xoroshiro128PlusPlus.gen 8 2 fill src = .ok (Xoroshiro128PlusPlus.gen.fromRng? fill src)) ∧
+    (∀ (n : Nat) (s : S2 64), Checked.XoGen.fill Xoroshiro128PlusPlus.gen n s = .ok (Xoroshiro128PlusPlus.gen.fill n s)) ∧
+    (∀ (s : S2 64), Checked.jumpLoop Xoroshiro128PlusPlus.step S2.xor S2.zero XOROSHIRO128PP_JUMP s = .ok (Xoroshiro128PlusPlus.jump s)) ∧
+    (∀ (s : S2 64), Checked.jumpLoop Xoroshiro128PlusPlus.step S2.xor S2.zero XOROSHIRO128PP_LONG_JUMP s = .ok (Xoroshiro128PlusPlus.longJump s)) :=
+  ⟨fun fuel seed h => Checked.XoGen.fromSeedFuel_ok _ 8 2 (by decide) rfl (by decide) fuel seed h,
+   fun fuel x => Checked.XoGen.seedFromU64Fuel_ok _ 8 2 (by decide) rfl (by decide) fuel x,
+   fun fill hf src => Checked.XoGen.fromRng?_ok _ 8 2 (by decide) rfl (by decide) fill hf src,
+   fun n s => Checked.XoGen.fill_ok _ n s,
+   fun s => jumpLoop_ok _ _ _ _ s, fun s => jumpLoop_ok _ _ _ _ s⟩
+
+/-- Xoroshiro128StarStar: `from_seed` (any 16 seed bytes, incl. all-zero), `seed_from_u64` (any u64),
+    `from_rng` (any source), `fill_bytes` (any length), `jump`, `long_jump` never panic -/
+theorem xoroshiro128StarStar_no_panic :
+    (∀ (fuel : Nat) (seed : List U8), seed.length = 16 →
+      Checked.XoGen.fromSeedFuel Xoroshiro128StarStar.gen 8 2 fuel seed = .ok (Xoroshiro128StarStar.gen.fromSeedFuel fuel seed)) ∧
+    (∀ (fuel : Nat) (x : U64),
+      Checked.XoGen.seedFromU64Fuel Xoroshiro128StarStar.gen 8 2 fuel x = .ok (Xoroshiro128StarStar.gen.seedFromU64Fuel fuel x)) ∧
+    (∀ {ρ : Type} (fill : TryFill ρ), SourceWF fill → ∀ (src : ρ),
+      Checked.XoGen.fromRng? Xoroshiro128StarStar.gen 8 2 fill src = .ok (Xoroshiro128StarStar.gen.fromRng? fill src)) ∧
+    (∀ (n : Nat) (s : S2 64), Checked.XoGen.fill Xoroshiro128StarStar.gen n s = .ok (Xoroshiro128StarStar.gen.fill n s)) ∧
+    (∀ (s : S2 64), Checked.jumpLoop Xoroshiro128StarStar.step S2.xor S2.zero XOROSHIRO128_JUMP s = .ok (Xoroshiro128StarStar.jump s)) ∧
+    (∀ (s : S2 64), Checked.jumpLoop Xoroshiro128StarStar.step S2.xor S2.zero XOROSHIRO128_LONG_JUMP s = .ok (Xoroshiro128StarStar.longJump s)) :=
+  ⟨fun fuel seed h => Checked.XoGen.fromSeedFuel_ok _ 8 2 (by decide) rfl (by decide) fuel seed h,
+   fun fuel x => Checked.XoGen.seedFromU64Fuel_ok _ 8 2 (by decide) rfl (by decide) fuel x,
+   fun fill hf src => Checked.XoGen.fromRng?_ok _ 8 2 (by decide) rfl (by decide) fill hf src,
+   fun n s => Checked.XoGen.fill_ok _ n s,
+   fun s => jumpLoop_ok _ _ _ _ s, fun s => jumpLoop_ok _ _ _ _ s⟩
+
+/-- Xoshiro128Plus: `from_seed` (any 16 seed bytes, incl. all-zero), `seed_from_u64` (any u64),
+    `from_rng` (any source), `fill_bytes` (any length), `jump`, `long_jump` never panic -/
+theorem xoshiro128Plus_no_panic :
+    (∀ (fuel : Nat) (seed : List U8), seed.length = 16 →
+      Checked.XoGen.fromSeedFuel Xoshiro128Plus.gen 4 4 fuel seed = .ok (Xoshiro128Plus.gen.fromSeedFuel fuel seed)) ∧
+    (∀ (fuel : Nat) (x : U64),
+      Checked.XoGen.seedFromU64Fuel Xoshiro128Plus.gen 4 4 fuel x = .ok (Xoshiro128Plus.gen.seedFromU64Fuel fuel x)) ∧
+    (∀ {ρ : Type} (fill : TryFill ρ), SourceWF fill → ∀ (src : ρ),
+      Checked.XoGen.fromRng? Xoshiro128Plus.gen 4 4 fill src = .ok (Xoshiro128Plus.gen.fromRng? fill src)) ∧
+    (∀ (n : Nat) (s : S4 32), Checked.XoGen.fill Xoshiro128Plus.gen n s = .ok (Xoshiro128Plus.gen.fill n s)) ∧
+    (∀ (s : S4 32), Checked.jumpLoop Xoshiro128Plus.step S4.xor S4.zero XOSHIRO128_JUMP s = .ok (Xoshiro128Plus.jump s)) ∧
+    (∀ (s : S4 32), Checked.jumpLoop Xoshiro128Plus.step S4.xor S4.zero XOSHIRO128_LONG_JUMP s = .ok (Xoshiro128Plus.longJump s)) :=
+  ⟨fun fuel seed h => Checked.XoGen.fromSeedFuel_ok _ 4 4 (by decide) rfl (by decide) fuel seed h,
+   fun fuel x => Checked.XoGen.seedFromU64Fuel_ok _ 4 4 (by decide) rfl (by decide) fuel x,
+   fun fill hf src => Checked.XoGen.fromRng?_ok _ 4 4 (by decide) rfl (by decide) fill hf src,
+   fun n s => Checked.XoGen.fill_ok _ n s,
+   fun s => jumpLoop_ok _ _ _ _ s, fun s => jumpLoop_ok _ _ _ _ s⟩
+
+/-- Xoshiro128PlusPlus: `from_seed` (any 16 seed bytes, incl. all-zero), `seed_from_u64` (any u64),
+    `from_rng` (any source), `fill_bytes` (any length), `jump`, `long_jump` never panic -/
+theorem xoshiro128PlusPlus_no_panic :
+    (∀ (fuel : Nat) (seed : List U8), seed.length = 16 →
+      Checked.XoGen.fromSeedFuel Xoshiro128PlusPlus.gen 4 4 fuel seed = .ok (Xoshiro128PlusPlus.gen.fromSeedFuel fuel seed)) ∧
+    (∀ (fuel : Nat) (x : U64),
+      Checked.XoGen.seedFromU64Fuel Xoshiro128PlusPlus.gen 4 4 fuel x = .ok (Xoshiro128PlusPlus.gen.seedFromU64Fuel fuel x)) ∧
+    (∀ {ρ : Type} (fill : TryFill ρ), SourceWF fill → ∀ (src : ρ),
+      Checked.XoGen.fromRng? Xoshiro128PlusPlus.gen 4 4 fill src = .ok (Xoshiro128PlusPlus.gen.fromRng? fill src)) ∧
+    (∀ (n : Nat) (s : S4 32), Checked.XoGen.fill Xoshiro128PlusPlus.gen n s = .ok (Xoshiro128PlusPlus.gen.fill n s)) ∧
+    (∀ (s : S4 32), Checked.jumpLoop Xoshiro128PlusPlus.step S4.xor S4.zero XOSHIRO128_JUMP s = .ok (Xoshiro128PlusPlus.jump s)) ∧
+    (∀ (s : S4 32), Checked.jumpLoop Xoshiro128PlusPlus.step S4.xor S4.zero XOSHIRO128_LONG_JUMP s = .ok (Xoshiro128PlusPlus.longJump s)) :=
+  ⟨fun fuel seed h => Checked.XoGen.fromSeedFuel_ok _ 4 4 (by decide) rfl (by decide) fuel seed h,
+   fun fuel x => Checked.XoGen.seedFromU64Fuel_ok _ 4 4 (by decide) rfl (by decide) fuel x,
+   fun fill hf src => Checked.XoGen.fromRng?_ok _ 4 4 (by decide) rfl (by decide) fill hf src,
+   fun n s => Checked.XoGen.fill_ok _ n s,
+   fun s => jumpLoop_ok _ _ _ _ s, fun s => jumpLoop_ok _ _ _ _ s⟩
+
+/-- Xoshiro128StarStar: `from_seed` (any 16 seed bytes, incl. all-zero), `seed_from_u64` (any u64),
+    `from_rng` (any source), `fill_bytes` (any length), `jump`, `long_jump` never panic -/
+theorem xoshiro128StarStar_no_panic :
+    (∀ (fuel : Nat) (seed : List U8), seed.length = 16 →
+      Checked.XoGen.fromSeedFuel Xoshiro128StarStar.gen 4 4 fuel seed = .ok (Xoshiro128StarStar.gen.fromSeedFuel fuel seed)) ∧
+    (∀ (fuel : Nat) (x : U64),
+      Checked.XoGen.seedFromU64Fuel Xoshiro128StarStar.gen 4 4 fuel x = .ok (Xoshiro128StarStar.gen.seedFromU64Fuel fuel x)) ∧
+    (∀ {ρ : Type} (fill : TryFill ρ), SourceWF fill → ∀ (src : ρ),
+      Checked.XoGen.fromRng? Xoshiro128StarStar.gen 4 4 fill src = .ok (Xoshiro128StarStar.gen.fromRng? fill src)) ∧
+    (∀ (n : Nat) (s : S4 32), Checked.XoGen.fill Xoshiro128StarStar.gen n s = .ok (Xoshiro128StarStar.gen.fill n s)) ∧
+    (∀ (s : S4 32), Checked.jumpLoop Xoshiro128StarStar.step S4.xor S4.zero XOSHIRO128_JUMP s = .ok (Xoshiro128StarStar.jump s)) ∧
+    (∀ (s : S4 32), Checked.jumpLoop Xoshiro128StarStar.step S4.xor S4.zero XOSHIRO128_LONG_JUMP s = .ok (Xoshiro128StarStar.longJump s)) :=
+  ⟨fun fuel seed h => Checked.XoGen.fromSeedFuel_ok _ 4 4 (by decide) rfl (by decide) fuel seed h,
+   fun fuel x => Checked.XoGen.seedFromU64Fuel_ok _ 4 4 (by decide) rfl (by decide) fuel x,
+   fun fill hf src => Checked.XoGen.fromRng?_ok _ 4 4 (by decide) rfl (by decide) fill hf src,
+   fun n s => Checked.XoGen.fill_ok _ n s,
+   fun s => jumpLoop_ok _ _ _ _ s, fun s => jumpLoop_ok _ _ _ _ s⟩
+
+/-- Xoshiro256Plus: `from_seed` (any 32 seed bytes, incl. all-zero), `seed_from_u64` (any u64),
+    `from_rng` (any source), `fill_bytes` (any length), `jump`, `long_jump` never panic -/
+theorem xoshiro256Plus_no_panic :
+    (∀ (fuel : Nat) (seed : List U8), seed.length = 32 →
+      Checked.XoGen.fromSeedFuel Xoshiro256Plus.gen 8 4 fuel seed = .ok (Xoshiro256Plus.gen.fromSeedFuel fuel seed)) ∧
+    (∀ (fuel : Nat) (x : U64),
+      Checked.XoGen.seedFromU64Fuel Xoshiro256Plus.gen 8 4 fuel x = .ok (Xoshiro256Plus.gen.seedFromU64Fuel fuel x)) ∧
+    (∀ {ρ : Type} (fill : TryFill ρ), SourceWF fill → ∀ (src : ρ),
+      Checked.XoGen.fromRng? Xoshiro256Plus.gen 8 4 fill src = .ok (Xoshiro256Plus.gen.fromRng? fill src)) ∧
+    (∀ (n : Nat) (s : S4 64), Checked.XoGen.fill Xoshiro256Plus.gen n s = .ok (Xoshiro256Plus.gen.fill n s)) ∧
+    (∀ (s : S4 64), Checked.jumpLoop Xoshiro256Plus.step S4.xor S4.zero XOSHIRO256_JUMP s = .ok (Xoshiro256Plus.jump s)) ∧
+    (∀ (s : S4 64), Checked.jumpLoop Xoshiro256Plus.step S4.xor S4.zero XOSHIRO256_LONG_JUMP s = .ok (Xoshiro256Plus.longJump s)) :=
+  ⟨fun fuel seed h => Checked.XoGen.fromSeedFuel_ok _ 8 4 (by decide) rfl (by decide) fuel seed h,
+   fun fuel x => Checked.XoGen.seedFromU64Fuel_ok _ 8 4 (by decide) rfl (by decide) fuel x,
+   fun fill hf src => Checked.XoGen.fromRng?_ok _ 8 4 (by decide) rfl (by decide) fill hf src,
+   fun n s => Checked.XoGen.fill_ok _ n s,
+   fun s => jumpLoop_ok _ _ _ _ s, fun s => jumpLoop_ok _ _ _ _ s⟩
+
+/-- Xoshiro256PlusPlus: `from_seed` (any 32 seed bytes, incl. all-zero), `seed_from_u64` (any u64),
+    `from_rng` (any source), `fill_bytes` (any length), `jump`, `long_jump` never panic -/
+theorem xoshiro256PlusPlus_no_panic :
+    (∀ (fuel : Nat) (seed : List U8), seed.length = 32 →
+      Checked.XoGen.fromSeedFuel Xoshiro256PlusPlus.gen 8 4 fuel seed = .ok (Xoshiro256PlusPlus.gen.fromSeedFuel fuel seed)) ∧
+    (∀ (fuel : Nat) (x : U64),
+      Checked.XoGen.seedFromU64Fuel Xoshiro256PlusPlus.gen 8 4 fuel x = .ok (Xoshiro256PlusPlus.gen.seedFromU64Fuel fuel x)) ∧
+    (∀ {ρ : Type} (fill : TryFill ρ), SourceWF fill → ∀ (src : ρ),
+      Checked.XoGen.fromRng? Xoshiro256PlusPlus.gen 8 4 fill src = .ok (Xoshiro256PlusPlus.gen.fromRng? fill src)) ∧
+    (∀ (n : Nat) (s : S4 64), Checked.XoGen.fill Xoshiro256PlusPlus.gen n s = .ok (Xoshiro256PlusPlus.gen.fill n s)) ∧
+    (∀ (s : S4 64), Checked.jumpLoop Xoshiro256PlusPlus.step S4.xor S4.zero XOSHIRO256_JUMP s = .ok (Xoshiro256PlusPlus.jump s)) ∧
+    (∀ (s : S4 64), Checked.jumpLoop Xoshiro256PlusPlus.step S4.xor S4.zero XOSHIRO256_LONG_JUMP s = .ok (Xoshiro256PlusPlus.longJump s)) :=
+  ⟨fun fuel seed h => Checked.XoGen.fromSeedFuel_ok _ 8 4 (by decide) rfl (by decide) fuel seed h,
+   fun fuel x => Checked.XoGen.seedFromU64Fuel_ok _ 8 4 (by decide) rfl (by decide) fuel x,
+   fun fill hf src => Checked.XoGen.fromRng?_ok _ 8 4 (by decide) rfl (by decide) fill hf src,
+   fun n s => Checked.XoGen.fill_ok _ n s,
+   fun s => jumpLoop_ok _ _ _ _ s, fun s => jumpLoop_ok _ _ _ _ s⟩
+
+/-- Xoshiro256StarStar: `from_seed` (any 32 seed bytes, incl. all-zero), `seed_from_u64` (any u64),
+    `from_rng` (any source), `fill_bytes` (any length), `jump`, `long_jump` never panic -/
+theorem xoshiro256StarStar_no_panic :
+    (∀ (fuel : Nat) (seed : List U8), seed.length = 32 →
+      Checked.XoGen.fromSeedFuel Xoshiro256StarStar.gen 8 4 fuel seed = .ok (Xoshiro256StarStar.gen.fromSeedFuel fuel seed)) ∧
+    (∀ (fuel : Nat) (x : U64),
+      Checked.XoGen.seedFromU64Fuel Xoshiro256StarStar.gen 8 4 fuel x = .ok (Xoshiro256StarStar.gen.seedFromU64Fuel fuel x)) ∧
+    (∀ {ρ : Type} (fill : TryFill ρ), SourceWF fill → ∀ (src : ρ),
+      Checked.XoGen.fromRng? Xoshiro256StarStar.gen 8 4 fill src = .ok (Xoshiro256StarStar.gen.fromRng? fill src)) ∧
+    (∀ (n : Nat) (s : S4 64), Checked.XoGen.fill Xoshiro256StarStar.gen n s = .ok (Xoshiro256StarStar.gen.fill n s)) ∧
+    (∀ (s : S4 64), Checked.jumpLoop Xoshiro256StarStar.step S4.xor S4.zero XOSHIRO256_JUMP s = .ok (Xoshiro256StarStar.jump s)) ∧
+    (∀ (s : S4 64), Checked.jumpLoop Xoshiro256StarStar.step S4.xor S4.zero XOSHIRO256_LONG_JUMP s = .ok (Xoshiro256StarStar.longJump s)) :=
+  ⟨fun fuel seed h => Checked.XoGen.fromSeedFuel_ok _ 8 4 (by decide) rfl (by decide) fuel seed h,
+   fun fuel x => Checked.XoGen.seedFromU64Fuel_ok _ 8 4 (by decide) rfl (by decide) fuel x,
+   fun fill hf src => Checked.XoGen.fromRng?_ok _ 8 4 (by decide) rfl (by decide) fill hf src,
+   fun n s => Checked.XoGen.fill_ok _ n s,
+   fun s => jumpLoop_ok _ _ _ _ s, fun s => jumpLoop_ok _ _ _ _ s⟩
+
+/-- Xoshiro512Plus: `from_seed` (any 64 seed bytes, incl. all-zero), `seed_from_u64` (any u64),
+    `from_rng` (any source), `fill_bytes` (any length), `jump`, `long_jump` never panic -/
+theorem xoshiro512Plus_no_panic :
+    (∀ (fuel : Nat) (seed : List U8), seed.length = 64 →
+      Checked.XoGen.fromSeedFuel Xoshiro512Plus.gen 8 8 fuel seed = .ok (Xoshiro512Plus.gen.fromSeedFuel fuel seed)) ∧
+    (∀ (fuel : Nat) (x : U64),
+      Checked.XoGen.seedFromU64Fuel Xoshiro512Plus.gen 8 8 fuel x = .ok (Xoshiro512Plus.gen.seedFromU64Fuel fuel x)) ∧
+    (∀ {ρ : Type} (fill : TryFill ρ), SourceWF fill → ∀ (src : ρ),
+      Checked.XoGen.fromRng? Xoshiro512Plus.gen 8 8 fill src = .ok (Xoshiro512Plus.gen.fromRng? fill src)) ∧
+    (∀ (n : Nat) (s : S8), Checked.XoGen.fill Xoshiro512Plus.gen n s = .ok (Xoshiro512Plus.gen.fill n s)) ∧
+    (∀ (s : S8), Checked.jumpLoop Xoshiro512Plus.step S8.xor S8.zero XOSHIRO512_JUMP s = .ok (Xoshiro512Plus.jump s)) ∧
+    (∀ (s : S8), Checked.jumpLoop Xoshiro512Plus.step S8.xor S8.zero XOSHIRO512_LONG_JUMP s = .ok (Xoshiro512Plus.longJump s)) :=
+  ⟨fun fuel seed h => Checked.XoGen.fromSeedFuel_ok _ 8 8 (by decide) rfl (by decide) fuel seed h,
+   fun fuel x => Checked.XoGen.seedFromU64Fuel_ok _ 8 8 (by decide) rfl (by decide) fuel x,
+   fun fill hf src => Checked.XoGen.fromRng?_ok _ 8 8 (by decide) rfl (by decide) fill hf src,
+   fun n s => Checked.XoGen.fill_ok _ n s,
+   fun s => jumpLoop_ok _ _ _ _ s, fun s => jumpLoop_ok _ _ _ _ s⟩
+
+/-- Xoshiro512PlusPlus: `from_seed` (any 64 seed bytes, incl. all-zero), `seed_from_u64` (any u64),
+    `from_rng` (any source), `fill_bytes` (any length), `jump`, `long_jump` never panic -/
+theorem xoshiro512PlusPlus_no_panic :
+    (∀ (fuel : Nat) (seed : List U8), seed.length = 64 →
+      Checked.XoGen.fromSeedFuel Xoshiro512PlusPlus.gen 8 8 fuel seed = .ok (Xoshiro512PlusPlus.gen.fromSeedFuel fuel seed)) ∧
+    (∀ (fuel : Nat) (x : U64),
+      Checked.XoGen.seedFromU64Fuel Xoshiro512PlusPlus.gen 8 8 fuel x = .ok (Xoshiro512PlusPlus.gen.seedFromU64Fuel fuel x)) ∧
+    (∀ {ρ : Type} (fill : TryFill ρ), SourceWF fill → ∀ (src : ρ),
+      Checked.XoGen.fromRng? Xoshiro512PlusPlus.gen 8 8 fill src = .ok (Xoshiro512PlusPlus.gen.fromRng? fill src)) ∧
+    (∀ (n : Nat) (s : S8), Checked.XoGen.fill Xoshiro512PlusPlus.gen n s = .ok (Xoshiro512PlusPlus.gen.fill n s)) ∧
+    (∀ (s : S8), Checked.jumpLoop Xoshiro512PlusPlus.step S8.xor S8.zero XOSHIRO512_JUMP s = .ok (Xoshiro512PlusPlus.jump s)) ∧
+    (∀ (s : S8), Checked.jumpLoop Xoshiro512PlusPlus.step S8.xor S8.zero XOSHIRO512_LONG_JUMP s = .ok (Xoshiro512PlusPlus.longJump s)) :=
+  ⟨fun fuel seed h => Checked.XoGen.fromSeedFuel_ok _ 8 8 (by decide) rfl (by decide) fuel seed h,
+   fun fuel x => Checked.XoGen.seedFromU64Fuel_ok _ 8 8 (by decide) rfl (by decide) fuel x,
+   fun fill hf src => Checked.XoGen.fromRng?_ok _ 8 8 (by decide) rfl (by decide) fill hf src,
+   fun n s => Checked.XoGen.fill_ok _ n s,
+   fun s => jumpLoop_ok _ _ _ _ s, fun s => jumpLoop_ok _ _ _ _ s⟩
+
+/-- Xoshiro512StarStar: `from_seed` (any 64 seed bytes, incl. all-zero), `seed_from_u64` (any u64),
+    `from_rng` (any source), `fill_bytes` (any length), `jump`, `long_jump` never panic -/
+theorem xoshiro512StarStar_no_panic :
+    (∀ (fuel : Nat) (seed : List U8), seed.length = 64 →
+      Checked.XoGen.fromSeedFuel Xoshiro512StarStar.gen 8 8 fuel seed = .ok (Xoshiro512StarStar.gen.fromSeedFuel fuel seed)) ∧
+    (∀ (fuel : Nat) (x : U64),
+      Checked.XoGen.seedFromU64Fuel Xoshiro512StarStar.gen 8 8 fuel x = .ok (Xoshiro512StarStar.gen.seedFromU64Fuel fuel x)) ∧
+    (∀ {ρ : Type} (fill : TryFill ρ), SourceWF fill → ∀ (src : ρ),
+      Checked.XoGen.fromRng? Xoshiro512StarStar.gen 8 8 fill src = .ok (Xoshiro512StarStar.gen.fromRng? fill src)) ∧
+    (∀ (n : Nat) (s : S8), Checked.XoGen.fill Xoshiro512StarStar.gen n s = .ok (Xoshiro512StarStar.gen.fill n s)) ∧
+    (∀ (s : S8), Checked.jumpLoop Xoshiro512StarStar.step S8.xor S8.zero XOSHIRO512_JUMP s = .ok (Xoshiro512StarStar.jump s)) ∧
+    (∀ (s : S8), Checked.jumpLoop Xoshiro512StarStar.step S8.xor S8.zero XOSHIRO512_LONG_JUMP s = .ok (Xoshiro512StarStar.longJump s)) :=
+  ⟨fun fuel seed h => Checked.XoGen.fromSeedFuel_ok _ 8 8 (by decide) rfl (by decide) fuel seed h,
+   fun fuel x => Checked.XoGen.seedFromU64Fuel_ok _ 8 8 (by decide) rfl (by decide) fuel x,
+   fun fill hf src => Checked.XoGen.fromRng?_ok _ 8 8 (by decide) rfl (by decide) fill hf src,
+   fun n s => Checked.XoGen.fill_ok _ n s,
+   fun s => jumpLoop_ok _ _ _ _ s, fun s => jumpLoop_ok _ _ _ _ s⟩
+
+
+/-! ## 7. `SeedableRng::seed_from_u64` default (PCG32 expansion) -/
+
+/-- for every seed length and every `u64`: `chunks_exact_mut(4)`, the `copy_from_slice`
+    lengths, `pcg32(..)[..rem.len()]` -/
+theorem pcg32Seed_no_panic (len : Nat) (state : U64) :
+    Checked.pcg32Seed len state = .ok (Rngs.pcg32Seed len state) ∧
+    (Rngs.pcg32Seed len state).length = len :=
+  ⟨pcg32Seed_ok len state, length_pcg32Seed len state⟩
+
+/-- the rotate amount `(state >> 59) as u32` is below 32 (and `rotate_right` is total anyway) -/
+theorem pcg32_rotate_amount (state : U64) : ((state >>> 59).setWidth 32 : U32).toNat < 32 :=
+  pcg32_rot_lt state
+
+/-! ## 8. JitterRng
+
+    The timer is a script `rs : List U64` of the values the closure will return: ANY list, so
+    large jumps, backward steps, wrap-around, zeros and constant (stuck) readings are all
+    included.  `Checked.Jitter.TMC α = List U64 → Except Panic (Option (α × List U64))`: a run
+    panics (`.error`), blocks because the script is exhausted (`.ok none` — what a stuck timer
+    looks like to a finite script; not a panic), or returns.  Every theorem says: for every
+    script the checked run is `.ok` of the model run. -/
+
+/-- `new_with_timer` establishes the invariant (`mem_prev_index` is a `u16`) -/
+theorem jitter_newWithTimer :
+    Checked.Jitter.newWithTimer = .ok Rngs.Jitter.newWithTimer ∧
+    Checked.Jitter.Inv Rngs.Jitter.newWithTimer :=
+  ⟨Checked.Jitter.newWithTimer_ok, Checked.Jitter.Inv_newWithTimer⟩
+
+/-- `set_rounds`: `assert!(rounds > 0)` is the one documented panic — it fires for 0 and only
+    for 0 -/
+theorem jitter_setRounds (j : Rngs.Jitter.Rng) (rounds : Nat) :
+    Checked.Jitter.setRounds j 0 = .error .assertFailed ∧
+    (0 < rounds → Checked.Jitter.setRounds j rounds = .ok { j with rounds := rounds }) ∧
+    ((∃ p, Checked.Jitter.setRounds j rounds = .error p) ↔ rounds = 0) ∧
+    (∀ j', Checked.Jitter.Inv j → Rngs.Jitter.setRounds j rounds = some j' → Checked.Jitter.Inv j') :=
+  ⟨Checked.Jitter.setRounds_zero j, Checked.Jitter.setRounds_pos j rounds,
+   Checked.Jitter.setRounds_panics_iff j rounds,
+   fun j' h h' => Checked.Jitter.setRounds_inv j j' rounds h h'⟩
+
+/-- the pure parts: `lfsr` (shifts `64 - i`, i in 1..65), `stir_pool` (`>> i`, i < 64),
+    `EcState::stuck` (wrapping_sub only), the verdict / rounds computation of `test_timer`
+    (`delta_sum / 300`, `64 - leading_zeros`, `(128 + log2 - 1) / log2`, `log2_lookup[avg]`) -/
+theorem jitter_pure_parts :
+    (∀ data time, Checked.Jitter.lfsr data time = .ok (Rngs.Jitter.lfsr data time)) ∧
+    (∀ data, Checked.Jitter.stir data = .ok (Rngs.Jitter.stir data)) ∧
+    (∀ ec d, Checked.Jitter.stuck ec d = .ok (Rngs.Jitter.stuck ec d)) ∧
+    (∀ deltaSum, deltaSum < 2 ^ 64 →
+      Checked.Jitter.roundsOf deltaSum = .ok (Rngs.Jitter.roundsOf deltaSum)) ∧
+    (∀ p : Rngs.Jitter.Probe, p.deltaSum < 2 ^ 64 →
+      Checked.Jitter.verdict p = .ok (Rngs.Jitter.verdict p)) ∧
+    (∀ a b : U32, Checked.Jitter.subI64C a.toInt b.toInt = .ok (a.toInt - b.toInt)) :=
+  ⟨Checked.Jitter.lfsr_ok, Checked.Jitter.stir_ok, Checked.Jitter.stuck_ok,
+   Checked.Jitter.roundsOf_ok, Checked.Jitter.verdict_ok, Checked.Jitter.subI64C_ok⟩
+
+/-- the internal steps, for every timer script: `random_loop_cnt(n_bits)` (0 < n_bits < 64;
+    both call sites use 4), `lfsr_time`, `memaccess` (`acc_loop_cnt += …`, `mem[index]` with
+    `index < 2048`), `measure_jitter` -/
+theorem jitter_internal_steps (j : Rngs.Jitter.Rng) (h : Checked.Jitter.Inv j) (rs : List U64) :
+    (∀ nBits, 0 < nBits → nBits < 64 →
+      Checked.Jitter.randomLoopCnt j nBits rs = .ok (Rngs.Jitter.randomLoopCnt j nBits rs)) ∧
+    (∀ time v, Checked.Jitter.lfsrTime j time v rs = .ok (Rngs.Jitter.lfsrTime j time v rs)) ∧
+    (∀ v, Checked.Jitter.memaccess j v rs = .ok (Rngs.Jitter.memaccess j v rs)) ∧
+    (∀ ec, Checked.Jitter.measureJitter j ec rs = .ok (Rngs.Jitter.measureJitter j ec rs)) :=
+  ⟨fun nBits h0 h64 => Checked.Jitter.randomLoopCnt_run j nBits h0 h64 rs,
+   fun time v => Checked.Jitter.lfsrTime_run j time v rs,
+   fun v => Checked.Jitter.memaccess_run j v h rs,
+   fun ec => Checked.Jitter.measureJitter_run j ec h rs⟩
+
+/-- `next_u64` (= `gen_entropy`) for every timer script -/
+theorem jitter_nextU64 (j : Rngs.Jitter.Rng) (h : Checked.Jitter.Inv j) (rs : List U64) :
+    Checked.Jitter.nextU64 j rs = .ok (Rngs.Jitter.nextU64 j rs) ∧
+    (∀ v j' rs', Rngs.Jitter.nextU64 j rs = some ((v, j'), rs') → Checked.Jitter.Inv j') :=
+  ⟨Checked.Jitter.nextU64_run j h rs, fun v j' rs' e => Checked.Jitter.nextU64_inv j rs rs' v j' e⟩
+
+theorem jitter_genEntropy (j : Rngs.Jitter.Rng) (h : Checked.Jitter.Inv j) (rs : List U64) :
+    Checked.Jitter.genEntropy j rs = .ok (Rngs.Jitter.genEntropy j rs) ∧
+    (∀ v j' rs', Rngs.Jitter.genEntropy j rs = some ((v, j'), rs') → Checked.Jitter.Inv j') :=
+  ⟨Checked.Jitter.genEntropy_run j h rs,
+   fun v j' rs' e => Checked.Jitter.genEntropy_inv j rs rs' v j' e⟩
+
+theorem jitter_nextU32 (j : Rngs.Jitter.Rng) (h : Checked.Jitter.Inv j) (rs : List U64) :
+    Checked.Jitter.nextU32 j rs = .ok (Rngs.Jitter.nextU32 j rs) ∧
+    (∀ v j' rs', Rngs.Jitter.nextU32 j rs = some ((v, j'), rs') → Checked.Jitter.Inv j') :=
+  ⟨Checked.Jitter.nextU32_run j h rs,
+   fun v j' rs' e => Checked.Jitter.nextU32_inv j h rs rs' v j' e⟩
+
+/-- `fill_bytes` for every length (0 included) and every timer script -/
+theorem jitter_fill (n : Nat) (j : Rngs.Jitter.Rng) (h : Checked.Jitter.Inv j) (rs : List U64) :
+    Checked.Jitter.fill n j rs = .ok (Rngs.Jitter.fill n j rs) ∧
+    (∀ bs j' rs', Rngs.Jitter.fill n j rs = some ((bs, j'), rs') → Checked.Jitter.Inv j') :=
+  ⟨Checked.Jitter.fill_run n j h rs,
+   fun bs j' rs' e => Checked.Jitter.fill_inv n j h rs rs' bs j' e⟩
+
+/-- `test_timer` for every timer script: `delta % 100`, the `i64` difference,
+    `delta_sum += …` (≤ 300 · 2^32), the counters, and the final rounds computation -/
+theorem jitter_testTimer (j : Rngs.Jitter.Rng) (h : Checked.Jitter.Inv j) (rs : List U64) :
+    Checked.Jitter.testTimer j rs = .ok (Rngs.Jitter.testTimer j rs) ∧
+    (∀ r j' rs', Rngs.Jitter.testTimer j rs = some ((r, j'), rs') →
+      Checked.Jitter.Inv j' ∧ ∀ n, r = .ok n → 0 < n ∧ n < 256) :=
+  ⟨Checked.Jitter.testTimer_run j h rs,
+   fun r j' rs' e => Checked.Jitter.testTimer_rounds_post j h rs (r, j') rs' e⟩
+
+theorem jitter_timerStats (j : Rngs.Jitter.Rng) (v : Bool) (h : Checked.Jitter.Inv j)
+    (rs : List U64) :
+    Checked.Jitter.timerStats j v rs = .ok (Rngs.Jitter.timerStats j v rs) ∧
+    (∀ d j' rs', Rngs.Jitter.timerStats j v rs = some ((d, j'), rs') → Checked.Jitter.Inv j') :=
+  ⟨Checked.Jitter.timerStats_run j v h rs,
+   fun d j' rs' e => Checked.Jitter.timerStats_inv j v rs rs' d j' e⟩
+
+theorem jitter_clone (j : Rngs.Jitter.Rng) (h : Checked.Jitter.Inv j) :
+    Checked.Jitter.clone j = .ok (Rngs.Jitter.clone j) ∧ Checked.Jitter.Inv (Rngs.Jitter.clone j) :=
+  ⟨Checked.Jitter.clone_ok j, Checked.Jitter.clone_inv j h⟩
+
+/-- ANY history of public operations (`next_u32`, `next_u64`, `fill_bytes(n)`, `gen_entropy`,
+    `test_timer`, `timer_stats(b)`, `set_rounds(r)` with r ≠ 0, `clone`) on a generator made
+    by `new_with_timer`, under ANY timer script: never a panic.  With `set_rounds(0)` in
+    front: always the documented panic. -/
+theorem jitter_history (ops : List Checked.Jitter.Op)
+    (hops : ∀ op, op ∈ ops → op ≠ .setRounds 0) (rs : List U64) :
+    Checked.Jitter.runC ops Rngs.Jitter.newWithTimer rs =
+      .ok (Checked.Jitter.runM ops Rngs.Jitter.newWithTimer rs) ∧
+    (∀ p, Checked.Jitter.runC ops Rngs.Jitter.newWithTimer rs ≠ .error p) ∧
+    (∀ j, Checked.Jitter.runC (.setRounds 0 :: ops) j rs = .error .assertFailed) :=
+  ⟨Checked.Jitter.run_ok (Checked.Jitter.runC_eq ops _ Checked.Jitter.Inv_newWithTimer hops) rs,
+   fun p => Checked.Jitter.runC_noPanic ops hops rs p,
+   fun j => Checked.Jitter.runC_setRounds_zero j ops rs⟩
+
+/-- `JitterRng::new()` (= `new_with_timer`, `test_timer` unless a cached rounds value exists,
+    `set_rounds`, `gen_entropy`): `test_timer` never returns `Ok(0)`, so the `set_rounds`
+    assertion cannot fire — for any timer script and any cached value -/
+theorem jitter_new (cached : Nat) (rs : List U64) :
+    Checked.Jitter.new cached rs = .ok (Checked.Jitter.newM cached rs) :=
+  Checked.Jitter.run_ok (Checked.Jitter.new_eq cached) rs
+
+/-- a stuck / exhausted timer blocks the call; it does not panic -/
+example (j : Rngs.Jitter.Rng) : Checked.Jitter.nextU64 j [] = .ok none := rfl
+example : Checked.Jitter.Inv Rngs.Jitter.newWithTimer := Checked.Jitter.Inv_newWithTimer
+
 end Rngs.C14
